@@ -1013,6 +1013,29 @@ func (e *Enc) goStmt(fr *Frame, st *State, in *ssa.Go) {
 			e.oblig(st, "pre", e.siteLabel(fr, "go "+target.Name()+":"+lab, in.Pos()), cnd, in.Pos(), rq.Tags, rq)
 		}
 		e.contractsUsed[fc.Key] = true
+		// ownership handed over to the new goroutine: the tokens become false for the spawner
+		for _, tr := range fc.Transfers {
+			ix := tr.(*SIndex)
+			id, ok := ix.X.(*SIdent)
+			if !ok || e.P.CS.GhostVars[id.Name] == nil {
+				e.failed = fmt.Errorf("%s:%d: transfers: %s is not a ghost variable", fc.File, fc.Line, specString(ix.X))
+				return
+			}
+			arr, err := ec.eval(ix.X)
+			if err != nil {
+				e.failed = fmt.Errorf("%s:%d: transfers: %v", fc.File, fc.Line, err)
+				return
+			}
+			idx, err := ec.eval(ix.I)
+			if err != nil {
+				e.failed = fmt.Errorf("%s:%d: transfers: %v", fc.File, fc.Line, err)
+				return
+			}
+			name := "GV_" + id.Name
+			nh := e.fresh(name, arr.S)
+			e.fact(Eq(nh, Store(arr.Val, idx.Val, False)))
+			st.heaps[name] = nh
+		}
 	}
 }
 
